@@ -76,7 +76,7 @@ RULE = (
     "2021 (18:00 / 12:00 / 18:00 / 12:00), 31 Dec 2019 23:59:30, 31 Jan 23:59:30 / 1 Feb 00:00:30 / 29 Feb 12:00 / 1 Mar "
     "00:00:30 of a leap year, 28 Feb 23:59:30 / 1 Mar 00:00:30 of a common year, last and first half minute of an "
     "ordinary day - each reached from a start 3 h or 8 h earlier (previous day / year), all of them in the perturbation "
-    "lattice (tesseral field at >= 3 of the 5 altitudes), eight of them in the geopotential lattice, two in the (6,K) "
+    "lattice (quick: at 200 km / 800 km / GEO, tesseral field at >= 2 of them; thorough: all 5 altitudes, >= 3), eight of them in the geopotential lattice, two in the (6,K) "
     "lattices, one in the layout lattice; factory: the dynamics object built by the real dynamicsFactory from a real "
     "ScenarioClock (in-memory epoch table) ticked to T in {0, 300, 600, 3600, 10800, 86400, 259200} s for 4 scenario "
     "starts (seeded day, first EOP day, 30 Dec 18:00 of a leap year, a start with milliseconds) x 4 configurations "
@@ -200,6 +200,7 @@ def _epochs(tier, seed):
 # (February).  A conversion that is one day (0.9856 deg of sidereal angle, another EOP row) or one month off shows in the
 # tesseral part of the geopotential only, and only at such instants.
 CAL_LEAP_YEARS = (2016, 2020)
+CAL_ALT_QUICK = (0, 1, 3)  # radius indices of the calendar epochs in the quick perturbation lattice (200 km, 800 km, GEO)
 CAL_COMMON_YEARS = (2017, 2018, 2019, 2021)
 
 
@@ -486,6 +487,8 @@ def items(tier, seed):
     subsets = _subsets(tier)
     for ei, e in enumerate(ep):
         for ai in range(len(ALT_RADII)):
+            if _is_cal(e) and tier != "thorough" and ai not in CAL_ALT_QUICK:
+                continue
             out.append(("perturb", list(e), ai, ei, subsets))
     ks = [1, 2, 3, 4] + ([5, 8] if tier == "thorough" else [])
     cal_batch = [by[lab] for lab in _cal_geo_labels(tier, seed)[:2]]
@@ -535,6 +538,7 @@ def bounds(tier, seed):
         "epochs": [[e[0], e[1], e[2]] for e in _epochs(tier, seed)],
         "calendar_epochs": {
             "perturbation_lattice": [e[0] for e in _epochs(tier, seed) if _is_cal(e)],
+            "perturbation_lattice_radii_km": [ALT_RADII[i] for i in (range(5) if tier == "thorough" else CAL_ALT_QUICK)],
             "geopotential_lattice": _cal_geo_labels(tier, seed),
             "batch_lattices": _cal_geo_labels(tier, seed)[:2],
             "layout_lattice": _cal_geo_labels(tier, seed)[:1] + (_cal_geo_labels(tier, seed)[2:] if tier == "thorough" else []),
